@@ -201,10 +201,14 @@ def main(argv=None):
   replays = []
   for case, v in failures:
     replays.append(common.write_replay(prop.id, case, v.msg, v.bucket))
+  if os.environ.get("VERIF_NO_EVIDENCE"):
+    for r in replays:
+      os.unlink(r)
   if len(stats.nontrivial) < 2 and not failures:
     raise HarnessError("fewer than 2 non-trivial cases generated; generator is broken")
-  common.write_evidence(prop.id, args.tier, seed, stats, prop.rule, prop.assumptions,
-                        timer.wall(), len(failures), extra=prop.extra_evidence(stats))
+  if not os.environ.get("VERIF_NO_EVIDENCE"):
+    common.write_evidence(prop.id, args.tier, seed, stats, prop.rule, prop.assumptions,
+                          timer.wall(), len(failures), extra=prop.extra_evidence(stats))
   print("%s %s: %d cases, %d distinct non-trivial, %d violation(s), %.1fs" % (
     prop.id, args.tier, stats.evaluations, len(stats.nontrivial), len(failures), timer.wall()))
   if failures:
